@@ -165,6 +165,56 @@ Proof. unfold sect. destruct t; auto. apply push_rrs_mono. Qed.
 Definition head_len (m : pkt) : N :=
   match push_name 12 [] (qname m) with Ok (qb, _) => 12 + (lenN qb + 4) | _ => 12 end.
 
+Lemma encode_sized_t_inv m size e t3 : encode_sized_t m size = Ok (e, t3) ->
+  512 <= size /\ rcode m <= 4095 /\
+  exists qb k0 ab k1 ac t1 nb k2 nc t2 db k3 dc,
+    push_name 12 [] (qname m) = Ok (qb, k0) /\
+    let qbytes := qb ++ be16 (qtype m) ++ be16 (qclass m) in
+    let p0 := 12 + lenN qbytes in
+    push_rrs size p0 k0 (answer m) = Ok (ab, k1, ac, t1) /\
+    sect size t1 (p0 + lenN ab) k1 (nameserver m) = Ok (nb, k2, nc, t2) /\
+    sect size t2 (p0 + lenN ab + lenN nb) k2 (additional m ++ opt_rr m) = Ok (db, k3, dc, t3) /\
+    e = be16 (qid m) ++ [flag1 m t3; flag2 m] ++ be16 1 ++ be16 ac ++ be16 nc ++ be16 dc
+        ++ qbytes ++ ab ++ nb ++ db.
+Proof.
+  unfold encode_sized_t. intros H.
+  destruct (size <? 512) eqn:E1; [discriminate|]. apply N.ltb_ge in E1.
+  destruct (4095 <? rcode m) eqn:E2; [discriminate|]. apply N.ltb_ge in E2.
+  apply obind_ok in H as ([qb k0] & Eq & H).
+  split; auto. split; auto. exists qb, k0.
+  destruct (push_rrs size _ k0 (answer m)) as [[[[ab k1] ac] t1]| |] eqn:Ea; try discriminate.
+  exists ab, k1, ac, t1.
+  match type of H with match ?x with _ => _ end = _ => destruct x as [[[[nb k2] nc] t2]| |] eqn:En; try discriminate end.
+  exists nb, k2, nc, t2.
+  match type of H with match ?x with _ => _ end = _ => destruct x as [[[[db k3] dc] t3']| |] eqn:Ed; try discriminate end.
+  exists db, k3, dc. inversion H; subst. cbv zeta. unfold sect. auto.
+Qed.
+
+Lemma encode_sized_t_build m size qb k0 ab k1 ac t1 nb k2 nc t2 db k3 dc t3 :
+  512 <= size -> rcode m <= 4095 ->
+  push_name 12 [] (qname m) = Ok (qb, k0) ->
+  let qbytes := qb ++ be16 (qtype m) ++ be16 (qclass m) in
+  let p0 := 12 + lenN qbytes in
+  push_rrs size p0 k0 (answer m) = Ok (ab, k1, ac, t1) ->
+  sect size t1 (p0 + lenN ab) k1 (nameserver m) = Ok (nb, k2, nc, t2) ->
+  sect size t2 (p0 + lenN ab + lenN nb) k2 (additional m ++ opt_rr m) = Ok (db, k3, dc, t3) ->
+  encode_sized_t m size = Ok (be16 (qid m) ++ [flag1 m t3; flag2 m] ++ be16 1 ++ be16 ac ++ be16 nc ++ be16 dc
+        ++ qbytes ++ ab ++ nb ++ db, t3).
+Proof.
+  intros H1 H2 Eq. cbv zeta. intros Ea En Ed. unfold encode_sized_t.
+  destruct (size <? 512) eqn:E1; [apply N.ltb_lt in E1; lia|].
+  destruct (4095 <? rcode m) eqn:E2; [apply N.ltb_lt in E2; lia|].
+  rewrite Eq. cbn [obind]. rewrite Ea. unfold sect in En, Ed. rewrite En, Ed. reflexivity.
+Qed.
+
+Lemma encode_sized_t_of m size e : encode_sized m size = Ok e -> exists t, encode_sized_t m size = Ok (e, t).
+Proof.
+  unfold encode_sized. destruct (encode_sized_t m size) as [[b t]| |]; intros H; inversion H; subst; eauto.
+Qed.
+
+Lemma encode_sized_of_t m size e t : encode_sized_t m size = Ok (e, t) -> encode_sized m size = Ok e.
+Proof. unfold encode_sized. intros ->. reflexivity. Qed.
+
 Lemma encode_sized_inv m size e : encode_sized m size = Ok e ->
   512 <= size /\ rcode m <= 4095 /\
   exists qb k0 ab k1 ac t1 nb k2 nc t2 db k3 dc t3,
@@ -177,17 +227,9 @@ Lemma encode_sized_inv m size e : encode_sized m size = Ok e ->
     e = be16 (qid m) ++ [flag1 m t3; flag2 m] ++ be16 1 ++ be16 ac ++ be16 nc ++ be16 dc
         ++ qbytes ++ ab ++ nb ++ db.
 Proof.
-  unfold encode_sized. intros H.
-  destruct (size <? 512) eqn:E1; [discriminate|]. apply N.ltb_ge in E1.
-  destruct (4095 <? rcode m) eqn:E2; [discriminate|]. apply N.ltb_ge in E2.
-  apply obind_ok in H as ([qb k0] & Eq & H).
-  split; auto. split; auto. exists qb, k0.
-  destruct (push_rrs size _ k0 (answer m)) as [[[[ab k1] ac] t1]| |] eqn:Ea; try discriminate.
-  exists ab, k1, ac, t1.
-  match type of H with match ?x with _ => _ end = _ => destruct x as [[[[nb k2] nc] t2]| |] eqn:En; try discriminate end.
-  exists nb, k2, nc, t2.
-  match type of H with match ?x with _ => _ end = _ => destruct x as [[[[db k3] dc] t3]| |] eqn:Ed; try discriminate end.
-  exists db, k3, dc, t3. inversion H; subst. cbv zeta. unfold sect. auto.
+  intros H. apply encode_sized_t_of in H as [t3 H].
+  apply encode_sized_t_inv in H as (H1 & H2 & qb & k0 & ab & k1 & ac & t1 & nb & k2 & nc & t2 & db & k3 & dc & H).
+  split; auto. split; auto. exists qb, k0, ab, k1, ac, t1, nb, k2, nc, t2, db, k3, dc, t3. exact H.
 Qed.
 
 Lemma encode_sized_build m size qb k0 ab k1 ac t1 nb k2 nc t2 db k3 dc t3 :
@@ -201,10 +243,8 @@ Lemma encode_sized_build m size qb k0 ab k1 ac t1 nb k2 nc t2 db k3 dc t3 :
   encode_sized m size = Ok (be16 (qid m) ++ [flag1 m t3; flag2 m] ++ be16 1 ++ be16 ac ++ be16 nc ++ be16 dc
         ++ qbytes ++ ab ++ nb ++ db).
 Proof.
-  intros H1 H2 Eq. cbv zeta. intros Ea En Ed. unfold encode_sized.
-  destruct (size <? 512) eqn:E1; [apply N.ltb_lt in E1; lia|].
-  destruct (4095 <? rcode m) eqn:E2; [apply N.ltb_lt in E2; lia|].
-  rewrite Eq. cbn [obind]. rewrite Ea. unfold sect in En, Ed. rewrite En, Ed. reflexivity.
+  intros H1 H2 Eq. cbv zeta. intros Ea En Ed.
+  eapply encode_sized_of_t. eapply encode_sized_t_build; eauto.
 Qed.
 
 Lemma push_rrs_over size rs pos kids bs k c t :
